@@ -27,9 +27,10 @@ EXTENDS ES5Grammar
 Slashy == {"/", "/=", "REGEX"}
 Headers == {"for", "while", "if", "with"}
 
-\* a token is <<class, nl, id>>; id 0 = None, 1000 + i = the division token
-\* that was given up when the parser made the lexer read token i as a regex
-NoTok == <<"", FALSE, 0>>
+\* a token is <<class, nl, id, owner>>; id 0 = None, 1000 + i = the division
+\* token that was given up when the parser made the lexer read token i as a
+\* regex; owner = kind of the node of the derivation the token belongs to
+NoTok == <<"", FALSE, 0, "">>
 
 \* TOKENS_THAT_IMPLY_DIVISON in terms of token classes (++ / -- after a
 \* line terminator are LTPLUSPLUS / LTMINUSMINUS: prefix operators; an
@@ -39,12 +40,20 @@ ImpliesDiv(t) ==
                  "this", ")", "}", "]"}
     \/ (t[1] \in {"++", "--"} /\ ~t[2])
 
-\* p_error: valid_prev_token.type in (RBRACE, PLUSPLUS, MINUSMINUS)
-MayBacktrack(t) == t[1] = "}" \/ (t[1] \in {"++", "--"} /\ ~t[2])
+\* p_error: valid_prev_token.type in (RBRACE, PLUSPLUS, MINUSMINUS) - but
+\* p_error is only reached if the parser cannot take the division token.
+\* NAMED DEVIATION (known finding of C05): the grammar of parsers/es5.py
+\* also reads `function f(){}` at the start of a statement as a function
+\* expression (member_expr_nobf : function_expr), so after the `}` of a
+\* function DECLARATION a division is accepted and nothing is re-read.
+AfterFuncDecl(t) == t[1] = "}" /\ t[4] = "FuncDecl"
+MayBacktrack(t) == (t[1] = "}" /\ ~AfterFuncDecl(t))
+                   \/ (t[1] \in {"++", "--"} /\ ~t[2])
 
 L0 == [cur |-> NoTok, prev |-> NoTok,
        stack |-> << [head |-> NoTok, inner |-> 0] >>,
        semi |-> FALSE,          \* a semicolon was just inserted (7.9)
+       nodes |-> <<>>,          \* kinds of the open nodes of the derivation
        n |-> 0, res |-> <<>>]
 
 \* _set_tokens(new) followed by the parenthesis bookkeeping of
@@ -67,10 +76,13 @@ SetTokens(st, new, parens) ==
 
 LStep(st, it, nl) ==
     IF it[1] = "V" THEN [st EXCEPT !.semi = TRUE]
+    ELSE IF it[1] = "(" THEN [st EXCEPT !.nodes = Append(@, it[2])]
+    ELSE IF it[1] = ")" THEN [st EXCEPT !.nodes = SubSeq(@, 1, Len(@) - 1)]
     ELSE IF it[1] # "T" THEN st
     ELSE
     LET i   == st.n + 1
-        tok == <<it[2], (i \in nl), i>>
+        own == IF st.nodes = <<>> THEN "" ELSE st.nodes[Len(st.nodes)]
+        tok == <<it[2], (i \in nl), i, own>>
         s0  == [st EXCEPT !.n = i]
     IN
     IF it[2] \notin Slashy THEN SetTokens(s0, tok, TRUE)
@@ -86,13 +98,17 @@ LStep(st, it, nl) ==
                     /\ \/ (st.semi /\ (i \in nl))      \* auto_semi_token
                        \/ MayBacktrack(st.cur)      \* valid_prev_token
         final    == IF first = dictated THEN first
-                    ELSE IF recover THEN "regex" ELSE "wrong"
+                    ELSE IF recover THEN "regex"
+                    ELSE IF first = "div" /\ AfterFuncDecl(st.cur)
+                    THEN "div-after-function-declaration"
+                    ELSE "wrong"
         \* the state after the final reading: a regex that was reached by
         \* backtracking has the abandoned division token as prev
         s1 == IF first = dictated
               THEN SetTokens(s0, tok, first = "div")
-              ELSE SetTokens(SetTokens(s0, <<"/", (i \in nl), 1000 + i>>, TRUE),
-                             tok, FALSE)
+              ELSE IF ~recover THEN SetTokens(s0, tok, TRUE)
+              ELSE SetTokens(SetTokens(s0, <<"/", (i \in nl), 1000 + i, "">>,
+                                       TRUE), tok, FALSE)
     IN [s1 EXCEPT !.res = Append(@, <<i, first, final, dictated>>)]
 
 RECURSIVE LFold(_, _, _, _)
@@ -101,11 +117,15 @@ LFold(st, o, k, nl) ==
 
 Decisions(o, nl) == LFold(L0, o, 1, nl).res
 
-\* every `/` of every derivable sentence ends up as the grammar dictates
-SlashDecisionsOK ==
-    Complete =>
-        \A k \in 1..Len(Decisions(out, nls)) :
-            Decisions(out, nls)[k][3] = Decisions(out, nls)[k][4]
+\* every `/` of every derivable sentence ends up as the grammar dictates -
+\* up to the named deviation, after which the rest of the sentence is lexed
+\* differently anyway
+RECURSIVE AllOK(_, _)
+AllOK(d, k) ==
+    IF k > Len(d) THEN TRUE
+    ELSE IF d[k][3] = "div-after-function-declaration" THEN TRUE
+    ELSE d[k][3] = d[k][4] /\ AllOK(d, k + 1)
+SlashDecisionsOK == Complete => AllOK(Decisions(out, nls), 1)
 
 EmitSlash ==
     Complete => PrintT(ToJson(<<out, SetToSeq(nls), Decisions(out, nls)>>))
